@@ -171,9 +171,10 @@ func runC03(args []string) int {
 	}
 
 	// branching histories: the E1 space with the time-travel oracle on every merged commit
-	L, N := 2, 2
+	// L=3 is the smallest bound with a commit that joins two concurrent ones (two writers + one more write)
+	L, N := 3, 2
 	if tier == "thorough" {
-		L = 3
+		L = 4
 	}
 	var bstates, btrans int
 	exhaustive := true
